@@ -42,6 +42,7 @@ var c13Templates = [][]string{
 	{"incrbyfloat", "K", "F"}, {"hincrbyfloat", "K", "f1", "F"}, {"lcs", "K", "K", "MINMATCHLEN", "I"}, {"lcs", "K", "K", "IDX", "MINMATCHLEN", "I", "WITHMATCHLEN"}, {"linsert", "K", "BEFORE", "a", "x"},
 	{"hello", "I"}, {"smismember", "K", "a", "b"}, {"keys", "P"}, {"scan", "0", "MATCH", "P"}, {"sscan", "K", "0", "MATCH", "P"}, {"hscan", "K", "0", "MATCH", "P"}, {"command", "list", "filterby", "pattern", "P"},
 	{"lcs", "kbig1", "kbig2"}, {"lcs", "kbig1", "kbig2", "IDX"}, {"lcs", "kbig1", "kbig1", "LEN"}, {"lcs", "kbig2", "K", "IDX", "WITHMATCHLEN"},
+	{"sort", "K", "BY", "w_*->f"}, {"sort", "K", "GET", "w_*->f", "GET", "#"}, {"sort", "K", "BY", "k*->f1", "GET", "k*->f1"}, {"sort", "K", "BY", "h_*->f", "GET", "w_*->x", "STORE", "K"},
 	{"sort", "K", "BY", "P"}, {"sort", "K", "BY", "w_*", "GET", "P", "GET", "#"}, {"sort", "K", "BY", "h_*->f", "LIMIT", "I", "I", "GET", "h_*->"}, {"sort", "K", "GET"},
 	{"sort", "K", "ALPHA", "LIMIT", "I", "I", "STORE", "K"}, {"sort", "K", "BY", "nosort", "GET", "*->", "STORE", "K"}, {"sort", "kbig1", "ALPHA"},
 	{"bitcount", "K"}, {"bitcount", "K", "I", "I", "BIT"}, {"bitpos", "K", "0"}, {"bitpos", "K", "1", "I"}, {"getrange", "K", "I", "I"}, {"lcs", "K", "K", "IDX"}, {"bitop", "AND", "K", "K", "K"},
@@ -65,7 +66,7 @@ func c13Big(which int) string {
 }
 
 func c13Fill(g *rand.Rand, t []string) []string {
-	keys := []string{"ka", "kl", "kh", "ks", "kmissing", "ke", "ke", "kz", "kn", "k1", "kx"}
+	keys := []string{"ka", "kl", "kh", "ks", "kmissing", "ke", "ke", "kz", "kn", "k1", "kx", "knames", "ksnames"}
 	out := make([]string, len(t))
 	for i, a := range t {
 		switch a {
@@ -131,7 +132,7 @@ func (r *c13Runner) seedState() error {
 	c := r.by
 	for _, cmd := range [][]string{{"FLUSHALL"}, {"SET", "ka", "hello"}, {"RPUSH", "kl", "a", "b", "c"}, {"HSET", "kh", "f1", "1", "f2", "x"}, {"SADD", "ks", "a", "b", "c"},
 		{"SET", "kbig1", c13Big(1)}, {"SET", "kbig2", c13Big(2)}, {"SET", "w_a", "1"}, {"HSET", "h_a", "f", "1"},
-		{"SET", "ke", ""}, {"SET", "kz", "\x00"}, {"SET", "kn", "-9223372036854775808"}, {"SADD", "k1", "only"}, {"SET", "kx", "gone"}, {"PEXPIRE", "kx", "1"}} {
+		{"RPUSH", "knames", "a", "l", "h", "s", "e"}, {"SADD", "ksnames", "a", "l", "h", "s"}, {"SET", "ke", ""}, {"SET", "kz", "\x00"}, {"SET", "kn", "-9223372036854775808"}, {"SADD", "k1", "only"}, {"SET", "kx", "gone"}, {"PEXPIRE", "kx", "1"}} {
 		if _, err := c.Do(3*time.Second, bs(cmd...)...); err != nil {
 			return err
 		}
@@ -291,7 +292,9 @@ func runC13(cfg runCfg, res *Result) error {
 		if err != nil {
 			return err
 		}
-		var rp struct{ Case c13Case `json:"case"` }
+		var rp struct {
+			Case c13Case `json:"case"`
+		}
 		if err := json.Unmarshal(b, &rp); err != nil {
 			return err
 		}
@@ -312,6 +315,43 @@ func runC13(cfg runCfg, res *Result) error {
 	// known findings of this property must not mask different ones: the signature is the failing command name
 	listed := loadFindings("")
 	seenWhy := map[string]bool{}
+	// witness of the listed finding "dict-table-blowup": the table keeps one item per bucket and doubles until
+	// two keys separate, so two keys whose hashes agree in their low 23 bits need 2^24 buckets; 50 000 ordinary
+	// keys need more memory than any machine has
+	if res.KnownActive == nil {
+		res.KnownActive = map[string]string{}
+		res.KnownHits = map[string]int{}
+	}
+	{
+		r.victim.Do(3*time.Second, bs("FLUSHALL")...)
+		r.victim.Do(10*time.Second, bs("SET", "w3483", "x")...)
+		r.victim.Do(20*time.Second, bs("SET", "w5152", "y")...)
+		line, err := r.srv.Ctl("DUMP 0 0", 20*time.Second)
+		var d struct{ Layout struct{ LogSize, Count int } }
+		if err == nil && json.Unmarshal([]byte(line), &d) == nil && d.Layout.Count == 2 && d.Layout.LogSize >= 20 {
+			why := fmt.Sprintf("SET w3483 x; SET w5152 y: the keyspace table of 2 keys has 2^%d buckets", d.Layout.LogSize)
+			known := false
+			for _, lf := range listed {
+				if lf.ID == "dict-table-blowup" {
+					res.KnownActive[lf.ID] = lf.Text + " [" + why + "]"
+					res.KnownHits[lf.ID]++
+					known = true
+				}
+			}
+			if !known {
+				os.MkdirAll(cfg.replayDir, 0o755)
+				path := filepath.Join(cfg.replayDir, fmt.Sprintf("C13-seed%d-table.json", cfg.seed))
+				b, _ := json.MarshalIndent(map[string]any{"property": "C13", "kind": "hostile-input", "seed": cfg.seed, "why": why}, "", " ")
+				os.WriteFile(path, b, 0o644)
+				res.Mismatches = append(res.Mismatches, &Mismatch{Index: -1, Op: "hostile-input", Why: why})
+				res.Replays = append(res.Replays, path)
+			}
+		}
+		r.victim.Do(20*time.Second, bs("FLUSHALL")...)
+		if err := r.setup(); err != nil {
+			return err
+		}
+	}
 	for i := 0; i < cmds+raws && len(res.Mismatches) < 6; i++ {
 		var cs c13Case
 		if i < cmds && i%2 == 1 {
